@@ -112,7 +112,7 @@ Section Adj.
     cbn [r_src r_pos r_vpos r_spans mkR tl]. rewrite (okK_notIndent i K). cbn [andb negb].
     destruct (Z.eqb_spec (at_ src pos) 0) as [E0|_]; [contradiction|]. cbn [andb].
     destruct (Z.ltb_spec (pos + 1) (iend i)) as [L|L].
-    - exists (i :: rest), v. split; [|intros; lia]. intros _. split; [reflexivity|].
+    - exists (i :: rest), (if at_ src (pos + 1) =? 0 then 0 else v). split; [|intros; lia]. intros _. split; [reflexivity|].
       exists (istart i). cbn [chain]. repeat split; try assumption; lia.
     - destruct rest as [|j rest'].
       + cbn [chain] in Hc. cbn [nextSpan]. exists [], v. split; [intros; lia|]. intros _. reflexivity.
